@@ -375,3 +375,37 @@ def main_for(prop: str, body, argv=None):
         traceback.print_exc()
         print(f"MACHINERY-ERROR property={prop}: harness exception", file=sys.stderr)
         return 2
+
+
+# ---------------------------------------------------------------- parallel map
+
+def _warm_ladim():
+    """Import ladim and JIT-compile the numba kernels once in the parent, so forked workers
+    inherit the compiled code."""
+    use_repo()
+    import numpy as np
+    import ladim.ROMS as R
+    import ladim.tracker as T
+    z = np.linspace(-1, 0, 3)[:, None, None] * np.ones((3, 4, 4)) * 10
+    X = np.array([1.5]); Y = np.array([1.5]); Z = np.array([2.0])
+    K, A = R.z2s(z, X, Y, Z)
+    R.sample3DUV(np.zeros((3, 4, 5)), np.zeros((3, 5, 4)), X, Y, K, A)
+    T.RKstep(X, Y, X, Y, 0.5, X, Y)
+    T.clip(X.copy(), Y.copy(), 0.0, 1.0, 0.0, 1.0)
+    T.RK4avg(X, X, X, X)
+
+
+def pmap(func, items, nproc=None, warm=True, chunksize=None):
+    """Ordered parallel map with forked workers (each inherits the imported, JIT-warmed ladim)."""
+    import multiprocessing as mp
+    items = list(items)
+    if not items:
+        return []
+    if warm:
+        _warm_ladim()
+    nproc = nproc or min(16, os.cpu_count() or 4, max(1, len(items)))
+    if nproc == 1 or len(items) < 4:
+        return [func(x) for x in items]
+    ctx = mp.get_context("fork")
+    with ctx.Pool(nproc) as pool:
+        return pool.map(func, items, chunksize=chunksize or max(1, len(items) // (nproc * 8)))
